@@ -13,6 +13,7 @@ import (
 	"github.com/mitchellh/mapstructure"
 	"math"
 	"math/rand"
+	"reflect"
 )
 
 func Spec_ContainsString(slice *[]string, value *string) bool {
@@ -59,6 +60,8 @@ func Spec_IsProbability(value float64) bool {
 }
 
 func Spec_DecodeToStruct(src, target interface{}) {
+	// C02: case-ambiguous keys are refused before the (map-order dependent) decoder sees them
+	Spec_rejectAmbiguousKeys(src, reflect.TypeOf(target))
 	e := mapstructure.Decode(src, target)
 	if e != nil {
 		panic(e)
